@@ -45,7 +45,22 @@ def generate(tape, tier="quick"):
             chain = [{"kind": "delay_fixed", "d": tape.choice([1, 2, 3, 5])}]
             if tape.chance(1, 3):
                 chain.append(gen_adapter(tape, PASS))
-        cons.append({"chain": chain})
+        spec = {"chain": chain}
+        # share a prefix of stateless adapters with an earlier consumer (one adapter instance, two targets)
+        bases = [k for k, b in enumerate(cons) if "shared_with" not in b and b["chain"] and
+                 b["chain"][0]["kind"] in ("scale", "callback", "delay_fixed")]
+        if bases and tape.chance(1, 3):
+            b = tape.choice(bases)
+            pre = 0
+            for a in cons[b]["chain"]:
+                if a["kind"] in ("scale", "callback", "delay_fixed"):
+                    pre += 1
+                else:
+                    break
+            k = 1 + tape.draw(pre)
+            tail = [a for a in chain if a["kind"] in ("scale", "callback")][:1]
+            spec = {"chain": [dict(a) for a in cons[b]["chain"][:k]] + tail, "shared_with": b, "shared_len": k}
+        cons.append(spec)
     n_events = tape.weighted([(12, 4), (25, 4), (45, 2), (60, 1)])
     if tier == "thorough" and tape.chance(1, 400):
         n_events = tape.choice([500, 2000, 5000])
